@@ -257,6 +257,11 @@ class Program:
             d = json.load(open(os.path.join(self.fdir, rel)))
             if d.get("errors"):
                 raise AnalysisBroken("front end reported errors in " + rel)
+            # standard algorithms with standard functors / accumulations are written back as the loops they stand for
+            from . import desugar
+            for fd in d.get("functions", []):
+                if fd.get("defined") and fd.get("body") and not fd.get("file", "").startswith("/"):
+                    desugar.desugar_function(fd)
             self._cache[rel] = d
         return self._cache[rel]
 
@@ -301,6 +306,10 @@ def parse_snippet(code, name="snippet"):
         if r.returncode != 0 or not os.path.exists(out):
             raise AnalysisBroken("extractor failed on a rule's positive example: %s" % r.stdout[-400:])
         unit = json.load(open(out))
+        from . import desugar
+        for f_ in unit.get("functions", []):
+            if f_.get("body"):
+                desugar.desugar_function(f_)
         return {f.get("name") or f.get("n"): f for f in unit.get("functions", []) if f.get("body")}
     finally:
         import shutil
